@@ -135,7 +135,7 @@ def cnt(t, n, pre=False):
 LINE = "log_arg('readline', 0, 1)"
 DEC = f"strip({LINE})"
 FIELDS = f"split({DEC}, ':')"
-c = M.contract("main", props=["C11", "C12"])
+c = M.contract("main", props=["C11", "C12", "C13"])
 c.param("fd", T.Int).param("verbose", T.Obj, default=VInt(0))
 c.heap_dicts(REG)
 c.ensures("main/ignores-sigint-and-sigterm-before-reading",
@@ -194,7 +194,7 @@ i.iter_post("step/one-request-per-iteration-and-never-leaves-on-error", "log_cou
 
 # ---- end-of-life sweep ------------------------------------------------------
 UR = f"{RT}:main._unlink_resources"
-c = S.contract(UR, props=["C11"])
+c = S.contract(UR, props=["C11", "C13"])
 c.param("rtype_registry", REG).param("rtype", T.Str)
 c.free("verbose", T.Obj)
 c.requires("known-type", "rtype in _CLEANUP_FUNCS")
@@ -220,9 +220,9 @@ CALL = "call:main._unlink_resources"
 c.ensures("sweep/every-type-swept-once-folders-last",
           f"tail(count_events('{CALL}', lambda r, reg, t: t == 'file') == 1 and count_events('{CALL}', lambda r, reg, t: t == 'semlock') == 1 and "
           f"count_events('{CALL}', lambda r, reg, t: t == 'folder') == 1 and log_count('{CALL}') == 3 and "
-          f"ordered('{CALL}', lambda r, reg, t: t != 'folder', '{CALL}', lambda r, reg, t: t == 'folder'))", prop="C11")
-c.at_call(UR, "sweeps-the-table-of-its-type", "arg_rtype_registry is registry[arg_rtype]", prop="C11")
-c.ensures("loop/left-only-at-end-of-file", "tail(True) and has_loop()", prop=["C11", "C12"])
+          f"ordered('{CALL}', lambda r, reg, t: t != 'folder', '{CALL}', lambda r, reg, t: t == 'folder'))", prop=["C11", "C13"])
+c.at_call(UR, "sweeps-the-table-of-its-type", "arg_rtype_registry is registry[arg_rtype]", prop=["C11", "C13"])
+c.ensures("loop/left-only-at-end-of-file", "tail(True) and has_loop()", prop=["C11", "C12", "C13"])
 
 S.contracts[f"{RT}:main"].replay_for("loop1/iteration/step", "tracker_step", nfields=f"len({FIELDS})", cmd=CMD, rtype=RTYPE, name=NAME,
                                   pre_count=CNT0)
